@@ -108,4 +108,4 @@ package output
 //@   requires l.t != nil && l.dst != nil
 //@   modifies *
 //@   ensures #C19.one-write-per-line calls(Fprintf) == 1
-//@   ensures n == len(p)
+//@   ensures #C19.reports-the-whole-line-consumed result == len(p)
